@@ -9,7 +9,7 @@ From XSM Require Import Model.TreeLib Gen.GenTree Gen.GenGeom Proofs.TreeP Proof
   Proofs.HistoryP Proofs.InvariantHP Proofs.GeomBridge.
 From Coq Require Import Lia.
 
-Definition exec_external_src (eng : engine) (pr : bool) (m : machine) (t : trans) (tgt : nat) (ev : event) : M :=
+Definition exec_external_src0 (eng : engine) (pr : bool) (m : machine) (t : trans) (tgt : nat) (ev : event) : M :=
   fun s0 =>
     let snapshot := s_cfg s0 in
     let domain := find_transition_domain m (t_src t) tgt in                                  (* Optional[StateNode] *)
@@ -46,16 +46,16 @@ Proof.
   destruct (parent_props m Hwf 0 p H0 Hp). lia.
 Qed.
 
-Theorem exec_external_src_eq m : ancestry_side_ok m = true -> forall eng pr t tgt ev s0,
+Theorem exec_external_src0_eq m : ancestry_side_ok m = true -> forall eng pr t tgt ev s0,
   Legal m (s_cfg s0) -> In (t_src t) (s_cfg s0) -> tgt < size m ->
-  exec_external_src eng pr m t tgt ev s0 = exec_external eng pr m t tgt ev s0.
+  exec_external_src0 eng pr m t tgt ev s0 = exec_external eng pr m t tgt ev s0.
 Proof.
   intros Hside eng pr t tgt ev s0 HL Hsrc Ht.
   assert (Hwf : wf m = true).
   { unfold ancestry_side_ok in Hside. apply andb_prop in Hside as [H _]. now apply andb_prop in H as [H _]. }
   pose proof (L_range m _ HL) as Hrange.
   assert (Hs : t_src t < size m) by now apply Hrange.
-  unfold exec_external_src, exec_external. cbn zeta.
+  unfold exec_external_src0, exec_external. cbn zeta.
   rewrite (find_domain_bridge m (t_src t) tgt Hwf Hs Ht), resolve_history_bridge.
   unfold ext_exit_set, ext_path, combined_path.
   destruct (Nat.eqb_spec tgt 0) as [->|Hn0].
@@ -74,6 +74,76 @@ Proof.
     destruct (is_history m tgt); [|reflexivity].
     match goal with |- context [match ?x with [] => ret | _ :: _ => _ end] => destruct x end; reflexivity.
 Qed.
+
+(* ---- the PLAN of the transition, sliced out of _execute_transition (asyncio engine) and _process_single_transition (sync
+        engine) by the translator: domain, exit order, entry path, combined entry path of a history target ---- *)
+Lemma plan_exit_order m C H src tgt :
+  xt_exit_order m C H src tgt = rev (sort_by (lt_depth_id m) (compute_states_to_exit m C H (find_transition_domain m src tgt) tgt)).
+Proof. unfold xt_exit_order. cbn zeta. now destruct (is_history m tgt). Qed.
+Lemma plan_path m C H src tgt :
+  xt_path m C H src tgt = if is_history m tgt then [] else get_path_to_state m tgt (find_transition_domain m src tgt).
+Proof. unfold xt_path. cbn zeta. now destruct (is_history m tgt). Qed.
+Lemma plan_combined m C H src tgt :
+  xt_combined m C H src tgt =
+  if is_history m tgt
+  then fold_left (fun acc h => fold_left (fun acc' x => if mem x acc' then acc' else acc' ++ [x])
+                                         (get_path_to_state m h (find_transition_domain m src tgt)) acc) (resolve_history_target m H tgt) []
+  else [].
+Proof.
+  unfold xt_combined. cbn zeta. destruct (is_history m tgt); [|reflexivity].
+  apply fold_left_ext2. intros a h. apply fold_left_ext2. intros a' x. now destruct (mem x a').
+Qed.
+Lemma plan_domain m C H src tgt : xt_domain m C H src tgt = find_transition_domain m src tgt.
+Proof. unfold xt_domain. cbn zeta. now destruct (is_history m tgt). Qed.
+
+Lemma plan_is_geometry m C H src tgt :
+  xt_exit_order m C H src tgt = rev (sort_by (lt_depth_id m) (compute_states_to_exit m C H (find_transition_domain m src tgt) tgt)) /\
+  xt_path m C H src tgt = (if is_history m tgt then [] else get_path_to_state m tgt (find_transition_domain m src tgt)).
+Proof. split; [apply plan_exit_order | apply plan_path]. Qed.
+
+(* both engines plan alike *)
+Lemma plans_agree m C H src tgt :
+  pst_domain m C H src tgt = xt_domain m C H src tgt /\ pst_exit_order m C H src tgt = xt_exit_order m C H src tgt /\
+  pst_path m C H src tgt = xt_path m C H src tgt /\ pst_combined m C H src tgt = xt_combined m C H src tgt.
+Proof. repeat split; reflexivity. Qed.
+
+(* one external transition, executed along the plan translated from the source: the effects (exit the planned list, run the
+   transition's actions, enter the planned path, enter the combined path of a history target; roll back on an error) are
+   those of Exec.exec_external *)
+Definition exec_external_src (eng : engine) (pr : bool) (m : machine) (t : trans) (tgt : nat) (ev : event) : M :=
+  fun s0 =>
+    let snapshot := s_cfg s0 in
+    let xs := compute_states_to_exit m snapshot (s_hist s0) (xt_domain m snapshot (s_hist s0) (t_src t) tgt) tgt in
+    let body :=
+      exit_states eng pr m (xt_exit_order m snapshot (s_hist s0) (t_src t) tgt) (Some ev) ;;
+      (fun s => exec_actions eng pr (t_actions t) ev s) ;;
+      enter eng pr m (xt_path m snapshot (s_hist s0) (t_src t) tgt) (Some ev) ;;
+      (match xt_combined m snapshot (s_hist s0) (t_src t) tgt with [] => ret | cp => enter eng pr m cp (Some ev) end) in
+    match body s0 with
+    | (s1, None) =>
+        match eng with
+        | Async => (hook_trans t ;; hook_notify) s1
+        | _ => (hook_notify ;; hook_trans t) s1
+        end
+    | (s1, Some e) =>
+        match for_each (sched eng m) (filter (fun x => mem x xs) (sort_nat snapshot)) (with_cfg snapshot s1) with
+        | (s2, None) => (s2, Some e)
+        | r => r
+        end
+    end.
+
+Lemma exec_external_src_plan eng pr m t tgt ev s0 : exec_external_src eng pr m t tgt ev s0 = exec_external_src0 eng pr m t tgt ev s0.
+Proof.
+  unfold exec_external_src, exec_external_src0. cbn zeta.
+  rewrite plan_exit_order, plan_path, plan_combined, plan_domain.
+  destruct (is_history m tgt); [|reflexivity].
+  match goal with |- context [match ?x with [] => ret | _ :: _ => _ end] => destruct x end; reflexivity.
+Qed.
+
+Theorem exec_external_src_eq m : ancestry_side_ok m = true -> forall eng pr t tgt ev s0,
+  Legal m (s_cfg s0) -> In (t_src t) (s_cfg s0) -> tgt < size m ->
+  exec_external_src eng pr m t tgt ev s0 = exec_external eng pr m t tgt ev s0.
+Proof. intros Hside eng pr t tgt ev s0 HL Hsrc Ht. rewrite exec_external_src_plan. now apply exec_external_src0_eq. Qed.
 
 (* ---- the legality theorems, restated for the transition as the source computes it ---- *)
 
